@@ -73,6 +73,14 @@ def NOT_REPRODUCED(msg=''):
 
 
 def run_script(script, hashseed=None, timeout=120, repo_src=None):
+    if isinstance(hashseed, (list, tuple)):
+        # the violation is configuration dependent: it reproduces if it does under one of these interpreter hash seeds
+        last = (0, "")
+        for hs in hashseed:
+            last = run_script(script, hs, timeout, repo_src)
+            if last[0] == 1:
+                return last[0], "PYTHONHASHSEED=%s\n%s" % (hs, last[1])
+        return last
     env = dict(os.environ)
     env["PYTHONDONTWRITEBYTECODE"] = "1"
     env.pop("PYTHONPATH", None)
